@@ -198,10 +198,14 @@ func (c *VCtx) callbackCall(fr *Frame, st *State, cc *ssa.CallCommon, f *Term, a
 	// a cancel function obtained from context.WithCancel cancels its context
 	cx := c.cancelOf(f)
 	c.cancelCtx(st, cx, Not(Eq(cx, Null)))
+	// the callback may take time (it may close its own channels and cancel contexts)
+	c.observe(st)
 	for h := range c.externalMods(cc) {
 		c.havocHeap(st, h)
 	}
 	if rt == nil {
+		h := c.heap(st, "G:calltime", ArrSort(SRef, SInt))
+		c.setHeap(st, "G:calltime", Store(h, f, c.now(st)))
 		return nil
 	}
 	// pure callbacks (declared in the contract): uninterpreted function of the callee and its arguments
@@ -229,12 +233,32 @@ func (c *VCtx) callbackCall(fr *Frame, st *State, cc *ssa.CallCommon, f *Term, a
 	}
 	v := c.freshVal("cb", rt)
 	c.knownAll(st, v)
+	c.recordRet(st, f, v)
 	return v
+}
+
+// recordRet remembers the most recent results of an opaque callback (ghost: lastret(f, i), calltime(f)).
+func (c *VCtx) recordRet(st *State, f *Term, v Val) {
+	rs := []Val{v}
+	if tup, ok := v.(Tuple); ok {
+		rs = tup
+	}
+	for i, r := range rs {
+		t, ok := r.(*Term)
+		if !ok {
+			continue
+		}
+		hn := fmt.Sprintf("G:lastret:%d:%s", i, t.Sort)
+		h := c.heap(st, hn, ArrSort(SRef, t.Sort))
+		c.setHeap(st, hn, Store(h, f, t))
+	}
+	h := c.heap(st, "G:calltime", ArrSort(SRef, SInt))
+	c.setHeap(st, "G:calltime", Store(h, f, c.now(st)))
 }
 
 // spawn handles "go f(args)": the callee's precondition must hold; the callee is verified separately.
 func (c *VCtx) spawn(fr *Frame, st *State, cc *ssa.CallCommon, fv *FnVal, args []Val) {
-	c.bumpCalls(st, c.declare("fnid!"+FuncKey(fv.Fn), SRef))
+	c.bumpCalls(st, c.fnID(bareName(FuncKey(fv.Fn))))
 	ct := c.eng.ContractOf(fv.Fn)
 	if ct == nil {
 		return
@@ -260,6 +284,13 @@ func (c *VCtx) applyContract(fr *Frame, st *State, cc *ssa.CallCommon, ct *FuncC
 		c.havocAll(st)
 	}
 	c.applyModifies(st, ct, callee, fv, args)
+	if c.mayCallBack(callee, 0, map[*ssa.Function]bool{}) {
+		for h := range c.heapSorts {
+			if h == "G:calltime" || strings.HasPrefix(h, "G:lastret:") {
+				c.havocHeap(st, h)
+			}
+		}
+	}
 	var res Val
 	if rt != nil {
 		res = c.freshVal("ret", rt)
@@ -305,6 +336,10 @@ func (c *VCtx) resolveModifies(item string, callee *ssa.Function) (string, Sort)
 		return elemHeapName(es), ArrSort(SRef, ArrSort(SInt, es))
 	case item == "ghost:calls":
 		return "G:calls", ArrSort(SRef, SInt)
+	case item == "ghost:calltime":
+		return "G:calltime", ArrSort(SRef, SInt)
+	case item == "ghost:hstate":
+		return "G:hstate", ArrSort(SRef, SInt)
 	case item == "ghost:srccnt":
 		return "G:srccnt", ArrSort(SRef, SInt)
 	case strings.HasPrefix(item, "atomic:"):
@@ -427,7 +462,7 @@ func (c *VCtx) builtin(fr *Frame, st *State, b *ssa.Builtin, cc *ssa.CallCommon,
 		c.safety(fr, st, "close", And(Not(Eq(ch, Null)), Not(c.isClosed(st, ch))), cc.Pos())
 		c.noteClose(fr, st, ch)
 		// the close happens now: this resolves the prophecy closedAt(ch)
-		n := c.tick(st)
+		n := c.tick(st, ch, false)
 		c.fact(Implies(st.pc, Eq(c.closedAt(ch), n)))
 		return nil
 	case "min", "max":
@@ -523,4 +558,77 @@ func (c *VCtx) copyOp(fr *Frame, st *State, cc *ssa.CallCommon) Val {
 	c.rangeWrite(st, es, SlArr(d), SlOff(d), srcArr, srcOff, n)
 	n.GT = types.Typ[types.Int]
 	return n
+}
+
+// fnID is an opaque constant standing for a function (used as key of the spawn counter); it is distinct
+// from nil and from every object that exists at function entry.
+func (c *VCtx) fnID(key string) *Term {
+	t := c.declare("fnid!"+key, SRef)
+	if !c.declSet["fnidfact:"+t.S] {
+		c.declSet["fnidfact:"+t.S] = true
+		a0 := c.declare(c.heapName("G:alloc", 0), ArrSort(SRef, SBool))
+		c.heapSorts["G:alloc"] = ArrSort(SRef, SBool)
+		c.facts0(And(Not(Eq(t, Null)), Not(Select(a0, t))))
+	}
+	return t
+}
+
+// bareName strips the receiver from a contract key: "(*T).M$1" -> "M$1".
+func bareName(key string) string {
+	if strings.HasPrefix(key, "(") {
+		if i := strings.Index(key, ")."); i >= 0 {
+			return key[i+2:]
+		}
+	}
+	return key
+}
+
+// mayCallBack: can fn (transitively) call a function value that is not statically known?
+func (c *VCtx) mayCallBack(fn *ssa.Function, depth int, seen map[*ssa.Function]bool) bool {
+	if seen[fn] {
+		return false
+	}
+	seen[fn] = true
+	if depth > 8 || len(fn.Blocks) == 0 {
+		return true
+	}
+	for _, b := range fn.Blocks {
+		for _, in := range b.Instrs {
+			ci, ok := in.(ssa.CallInstruction)
+			if !ok {
+				continue
+			}
+			cc := ci.Common()
+			if _, isB := cc.Value.(*ssa.Builtin); isB {
+				continue
+			}
+			callee := cc.StaticCallee()
+			if callee == nil {
+				if cc.IsInvoke() && c.invokeModel(cc) != nil {
+					continue
+				}
+				return true
+			}
+			if c.staticModel(callee) != nil {
+				for _, a := range cc.Args {
+					if _, isSig := a.Type().Underlying().(*types.Signature); isSig {
+						return true
+					}
+				}
+				continue
+			}
+			if strings.HasPrefix(fnPkgPath(callee), ModPath) || callee.Parent() != nil {
+				if c.mayCallBack(callee, depth+1, seen) {
+					return true
+				}
+				continue
+			}
+			for _, a := range cc.Args {
+				if _, isSig := a.Type().Underlying().(*types.Signature); isSig {
+					return true
+				}
+			}
+		}
+	}
+	return false
 }
